@@ -284,6 +284,7 @@ def compile_props(cid):
     names = re.findall(r"^\s*Theorem\s+([A-Za-z0-9_']+)", src_nc, flags=re.M)
     cmd = "coqc -R %s V %s" % (COQ, path)
     lk = _lock()
+    make_failed = False
     try:
         pre = ""
         try:
@@ -292,6 +293,7 @@ def compile_props(cid):
             rcm, outm = make(["props/%s.vo" % cid], timeout=2400)
             if rcm != 0:
                 pre += "\n" + outm[-3000:]
+                make_failed = True
         except BuildError as ex:
             pre += "\n" + ex.what + "\n" + ex.log[-2000:]
         # the props file itself only READS compiled files: downgrade to a shared lock so that
@@ -299,7 +301,13 @@ def compile_props(cid):
         # another check (exclusive) still waits for all readers
         fcntl.flock(lk, fcntl.LOCK_SH)
         rc, out = sh(["timeout", "900", "coqc", "-R", COQ, "V", path], cwd=COQ)
-        if rc != 0:
+        if make_failed and rc == 0:
+            # a dependency of the props file did not build (e.g. a regenerated file that no longer
+            # compiles): the stale .vo files of an earlier build must not discharge anything.
+            # Count the theorems whose Print Assumptions came BEFORE nothing: none.
+            rc, out = 1, ("a dependency of props/%s.v failed to build; obligations are not discharged by "
+                          "stale compiled files\n" % cid) + pre[-4000:]
+        elif rc != 0:
             out = pre[-4000:] + "\n" + out
     finally:
         lk.close()
